@@ -69,13 +69,13 @@ def keywords : List String :=
   ["$ref", "type", "enum", "const", "minimum", "maximum", "exclusiveMinimum", "exclusiveMaximum", "minLength", "maxLength",
    "pattern", "minItems", "maxItems", "prefixItems", "items", "additionalItems", "minProperties", "maxProperties", "required",
    "properties", "additionalProperties", "allOf", "anyOf", "oneOf", "not", "contains", "minContains", "maxContains",
-   "propertyNames", "if", "then", "else", "patternProperties", "dependentRequired"]
+   "propertyNames", "if", "then", "else", "patternProperties", "dependentRequired", "multipleOf"]
 
 theorem checkKeywords_congr (d : Draft) (rec : J → J → Bool) (s s' v : J)
     (h : ∀ k ∈ keywords, s.get k = s'.get k) : checkKeywords d rec s v = checkKeywords d rec s' v := by
   have g : ∀ k, k ∈ keywords → s.get k = s'.get k := h
-  unfold checkKeywords checkType checkEnumConst checkBounds boundOk checkCombinators
-  rw [g "type" (by decide), g "enum" (by decide), g "const" (by decide), g "minimum" (by decide), g "maximum" (by decide),
+  unfold checkKeywords checkType checkEnumConst checkBounds boundOk multipleOk checkCombinators
+  rw [g "multipleOf" (by decide), g "type" (by decide), g "enum" (by decide), g "const" (by decide), g "minimum" (by decide), g "maximum" (by decide),
     g "exclusiveMinimum" (by decide), g "exclusiveMaximum" (by decide), g "allOf" (by decide), g "anyOf" (by decide),
     g "oneOf" (by decide), g "not" (by decide), g "if" (by decide), g "then" (by decide), g "else" (by decide)]
   cases v with
@@ -135,7 +135,7 @@ theorem validate_root_congr (d : Draft) (root root' : J) (h : ∀ r, resolveRef 
 theorem ref_unfold (d : Draft) (root : J) (rec : J → J → Bool) (r : String) (target v : J)
     (hres : resolveRef root r = some target) :
     checkNode d root rec (.obj [("$ref", .str r)]) v = rec target v := by
-  cases d <;> simp [checkNode, checkRef, J.get, List.lookup, hres, checkKeywords, checkType, checkEnumConst, checkBounds, boundOk,
+  cases d <;> simp [checkNode, checkRef, J.get, List.lookup, hres, checkKeywords, checkType, checkEnumConst, checkBounds, boundOk, multipleOk,
     checkCombinators] <;> cases v <;> simp [checkString, checkArray, checkObject, checkDependentRequired, tupleSchemas, restSchema, J.get, List.lookup, natOf]
 
 theorem ref_siblings_ignored_draft07 (root : J) (rec : J → J → Bool) (r : String) (target v : J) (siblings : List (String × J))
@@ -170,5 +170,22 @@ theorem nonobject_rejected (schema data : J) (h : ∀ kvs, data ≠ .obj kvs) : 
 
 /-- boolean schemas -/
 theorem bool_schema (d : Draft) (root : J) (rec : J → J → Bool) (b : Bool) (v : J) : checkNode d root rec (.bool b) v = b := rfl
+
+/-- `multipleOf` on exact decimals: for whole numbers it is divisibility, and the sign plays no part -/
+theorem multipleOf_integers (n1 n2 : Bool) (a b : Nat) :
+    isMultiple ⟨n1, a, 0⟩ ⟨n2, b, 0⟩ = (b != 0 && a % b == 0) := by
+  simp [isMultiple]
+
+/-- both numbers are brought to the smaller of the two exponents first: 0.3 is a multiple of 0.1 and 0.35 is not; 300 (3e2) is a
+    multiple of 0.25; nothing is a multiple of 0 -/
+example : isMultiple ⟨false, 3, -1⟩ ⟨false, 1, -1⟩ = true ∧ isMultiple ⟨false, 35, -2⟩ ⟨false, 1, -1⟩ = false ∧
+    isMultiple ⟨true, 3, 2⟩ ⟨false, 25, -2⟩ = true ∧ isMultiple ⟨false, 3, 0⟩ ⟨false, 0, 0⟩ = false := by decide
+
+/-- the keyword concerns numbers only -/
+theorem multipleOf_ignores_non_numbers (schema : J) (v : J) (hv : ∀ x, v ≠ .num x) : multipleOk schema v = true := by
+  unfold multipleOk
+  split
+  · rename_i x _ ; exact absurd rfl (hv x)
+  · rfl
 
 end Gsp.Props.C18
